@@ -43,6 +43,9 @@ pub struct Model<'a> {
     pub nullified: BTreeSet<String>,
     /// the model met something it does not model (introspection sub-trees beyond the templates)
     pub unsupported: Option<String>,
+    /// list path → stream indices of items that were skipped (SkipForPartialExecution): error
+    /// paths count stream positions, the response list does not contain those items
+    pub skipped_items: BTreeMap<String, Vec<usize>>,
     /// which rows of the decision table (DESIGN.md appendix A) this run reached
     pub rows: std::cell::RefCell<BTreeMap<&'static str, u64>>,
 }
@@ -370,7 +373,10 @@ impl<'a> Model<'a> {
                         }
                     };
                     match r {
-                        Ok(None) => {}
+                        Ok(None) => {
+                            self.row("complete.list_item_skipped");
+                            self.skipped_items.entry(path.to_string()).or_default().push(i);
+                        }
                         Ok(Some(v)) => out.push(v),
                         Err(Propagate) => {
                             self.row("complete.non_null_item_failed_list_nullified_or_propagated");
@@ -724,6 +730,32 @@ pub fn const_to_json(value: &Node<Value>) -> Result<J, ()> {
             J::Object(m)
         }
     })
+}
+
+/// Translate a path that counts stream positions (as error paths do) into the path of the same
+/// position in `data`, where skipped list items are absent. `None`: the position itself was skipped.
+pub fn to_data_path(skipped: &BTreeMap<String, Vec<usize>>, stream_path: &str) -> Option<String> {
+    if skipped.is_empty() || stream_path.is_empty() {
+        return Some(stream_path.to_string());
+    }
+    let mut stream_prefix = String::new();
+    let mut data = String::new();
+    for seg in stream_path.split('/') {
+        let mut out_seg = seg.to_string();
+        if let (Ok(idx), Some(sk)) = (seg.parse::<usize>(), skipped.get(&stream_prefix)) {
+            if sk.contains(&idx) {
+                return None;
+            }
+            out_seg = (idx - sk.iter().filter(|s| **s < idx).count()).to_string();
+        }
+        if !stream_prefix.is_empty() {
+            stream_prefix.push('/');
+            data.push('/');
+        }
+        stream_prefix.push_str(seg);
+        data.push_str(&out_seg);
+    }
+    Some(data)
 }
 
 pub fn outcome_brief(o: &Outcome) -> String {
